@@ -140,6 +140,10 @@ pub fn gen_doc_comment(rng: &mut Rng) -> Option<String> {
     if rng.chance(3, 4) {
         return None;
     }
+    if rng.chance(1, 8) {
+        // empty documentation: `doc` becomes Some("")
+        return Some((*rng.pick(&["/** */\n", "/***/", "/**\n *\n */\n"])).to_owned());
+    }
     let n = rng.range(1, 4);
     let mut s = String::from("/**");
     for i in 0..n {
